@@ -864,6 +864,12 @@ def simulate(z, plan, clause_only=False):
            tuple((a["kind"], a["text"]) for a in cli["args"]))
     st.cli_sig = P.digest(repr(sig))
     cl = E.classify(resp, None)
+    if cl is not None and E.elfutils_crash_on_damaged_file(plan, resp, cl):
+        # a fault inside libdw/libelf on a damaged file in a straight-line run
+        # of the CLI: elfutils' robustness, not dwgrep's (DESIGN.md 10a)
+        out.discarded = "crash-inside-elfutils-on-damaged-file"
+        out.fp = E.fingerprint(resp, "")
+        return out
     if cl is not None:
         orc, klass, det = cl
         if orc == "leak":
